@@ -27,7 +27,7 @@ ASSUMPTIONS = [
 NSHARDS = {"quick": 16, "thorough": 16}
 N_CASES = {"quick": 1200, "thorough": 40000}   # per shard
 REQUIRE = {"outcome:oom": 200, "outcome:ok": 200, "zero_tick_operators": 50, "multi_segment_operators": 100,
-           "compared_ticks": 20000, "ambiguous_cases_resolved": 5}
+           "compared_ticks": 20000, "ambiguous_cases_resolved": 5, "retried_containers": 300, "retries_succeeded": 100}
 for _l in LAWS:
     REQUIRE["law:" + _l] = 50
 
@@ -106,6 +106,46 @@ def directed_case(d):
             "drain": 200000 if d["tps"] >= 1000 else 5000, "_directed": True}
 
 
+def retry_case(rng):
+    """First attempt with too little memory (fails part-way), then the unfinished operators are
+    assigned again - same operator objects - with another CPU count and enough memory."""
+    c = make_case(rng, 0)
+    ops = c["pipelines"][0]["ops"]
+    peak = max(gen.ops_peak(ops), 0.001)
+    a = c["steps"][0]["asg"][0]
+    a["ram"] = peak * rng.choice([0.2, 0.5, 0.8, 0.95])
+    cpu2 = rng.choice([x for x in CPUS if x != a["cpu"]])
+    c["world"]["ram"] = max(c["world"]["ram"], peak * 4, 1.0)
+    c["world"]["cpus"] = 128
+    c["kind"] = "retry"
+    c["retry"] = {"cpu": cpu2, "ram": peak * rng.choice([1.0, 1.5, 3.0])}
+    c["_adaptive_pending"] = True
+    return c
+
+
+class RetryDriver:
+    def __init__(self, case):
+        self.first = case["steps"][0]
+        self.retry = case["retry"]
+        self.done = False
+
+    def __call__(self, w, i):
+        if i == 0:
+            return self.first
+        if i > 3000:
+            return None
+        if not w.containers:
+            return None
+        mc = w.containers[0]
+        if mc.status == "failed" and not self.done:
+            self.done = True
+            keys = [k for k in mc.keys if w.mstate[k] == "failed"]
+            return {"sus": [], "asg": [{"pool": 0, "cpu": self.retry["cpu"], "ram": self.retry["ram"], "ops": [list(k) for k in keys]}]}
+        if not any(w.active[k] for k in range(w.npools)):
+            return None
+        return {"sus": [], "asg": []}
+
+
 def cases(tier, seed, shard, nshards):
     if shard == 0:
         for d in DIRECTED:
@@ -113,11 +153,27 @@ def cases(tier, seed, shard, nshards):
     rng = rng_for(ID, seed, shard)
     for i in range(N_CASES[tier]):
         yield make_case(rng, i)
+        if i % 6 == 0:
+            yield retry_case(rng)
 
 
 def run_case(case, mon):
-    from ..execworld import run_with_choices, ANY
-    w, probs, status = run_with_choices(case)
+    from ..execworld import run_with_choices, ANY, World
+    if case.get("kind") == "retry" and case.get("_adaptive_pending"):
+        case.pop("_adaptive_pending")
+        w = World(case)
+        probs = w.run(driver=RetryDriver(case), max_steps=3100)
+        status = "ok" if not probs else "problems"
+        if probs and w.n_amb:
+            w2, probs2, status = run_with_choices(case)
+            if status != "problems":
+                w, probs = w2, probs2
+        if len(w.containers) > 1:
+            mon.count("retried_containers")
+            if w.containers[1].status == "ok":
+                mon.count("retries_succeeded")
+    else:
+        w, probs, status = run_with_choices(case)
     if status == "skipped-ambiguous":
         mon.count("skipped_too_ambiguous")
         return
@@ -126,8 +182,8 @@ def run_case(case, mon):
     if not w.containers:
         mon.count("container_not_created")
     else:
-        mc = w.containers[0]
-        mon.count("compared_ticks", mc.j)
+        mc = w.containers[-1]
+        mon.count("compared_ticks", sum(m.j for m in w.containers))
         mon.count("outcome:" + {"ok": "ok", "failed": "oom"}.get(mc.status, mc.status))
         if mc.status in ("ok", "failed"):
             mon.hit({"ticks": mc.j, "outcome": mc.status, "completed_ops": mc.ncomp, "trace_head": w.trace[:6]})
